@@ -11,6 +11,8 @@ import extract
 
 REFUTED = [
     ('postcondition not satisfied', 'postcondition'),
+    ('unable to prove post-condition of closure', 'closure-postcondition'),
+    ('unable to prove postcondition of closure', 'closure-postcondition'),
     ('precondition not satisfied', 'precondition'),
     ('assertion failed', 'assertion'),
     ('invariant not satisfied', 'invariant'),
